@@ -3,6 +3,7 @@
 package main
 
 import (
+	"encoding/json"
 	"fmt"
 	"go/ast"
 	"go/parser"
@@ -174,8 +175,47 @@ func hasRepeat(r *syntax.Regexp) bool {
 	return false
 }
 
-func factsRegex(dir string) error {
+// roleRegexes: the compiled expressions by ROLE. A role is the name (package_variable) an expression had when the model was
+// written (tools/implsrv/roles.json: role ↦ pattern text at that time). A role whose variable is gone — renamed, moved to another
+// package, merged with a duplicate — is served by any compiled expression of the tree with exactly that pattern text; a variable
+// that still exists is taken as it is (whatever its pattern says now).
+func roleRegexes() map[string]*regexp.Regexp {
 	all := allRegexes()
+	buf, err := os.ReadFile(os.Getenv("VERIF_ROLES"))
+	if err != nil {
+		return all
+	}
+	roles := map[string]string{}
+	if json.Unmarshal(buf, &roles) != nil {
+		return all
+	}
+	byPattern := map[string]*regexp.Regexp{}
+	var names []string
+	for n := range all {
+		names = append(names, n)
+	}
+	sort.Strings(names)
+	for _, n := range names {
+		if _, dup := byPattern[all[n].String()]; !dup {
+			byPattern[all[n].String()] = all[n]
+		}
+	}
+	out := map[string]*regexp.Regexp{}
+	for n, re := range all {
+		out[n] = re
+	}
+	for role, pat := range roles {
+		if _, ok := out[role]; !ok {
+			if re, ok := byPattern[pat]; ok {
+				out[role] = re
+			}
+		}
+	}
+	return out
+}
+
+func factsRegex(dir string) error {
+	all := roleRegexes()
 	names := make([]string, 0, len(all))
 	for n := range all {
 		names = append(names, n)
@@ -372,6 +412,7 @@ func factsWiring(dir string) error {
 	}
 	var b strings.Builder
 	b.WriteString("/- REGENERATED by /verif/tools/implsrv (facts) from internal/gontainer/gontainer.go (the shipped wiring),\n   cmd_build.go and runner_builder.go — do not edit. -/\nnamespace GM.Generated\n\n")
+	b.WriteString("/-- the arguments of a wired service as a collection of a given size: where the arguments have different types their order\ncarries no meaning of its own (it follows the constructor's signature, which the Go compiler checks) -/\ndef argsAre (got : Option (List String)) (want : List String) : Bool :=\n  match got with\n  | some l => l.length == want.length && want.all (l.contains ·) && l.all (want.contains ·)\n  | none => false\n\n")
 	b.WriteString("/-- (service id, constructor, dependency arguments, tags) as wired in the checked-in generated container -/\ndef wiring : List (String × String × List String × List String) := [\n")
 	for i, s := range svcs {
 		sep := ","
